@@ -29,7 +29,7 @@ package cedar
 //@ spec func hasError(es []types.DiagnosticError, id PolicyID) bool = exists k int :: 0 <= k && k < len(es) && es[k].PolicyID == id
 
 //@ func Authorize
-//@   props C02
+//@   props C02 C14
 //@   results d, diag
 //@   requires forall id PolicyID :: inPS(policies, id) ==> pol(policies, id) != nil && pol(policies, id).ast != nil
 //@   ensures decision: d == (anyPermit(policies, authEnv(entities, req)) && !anyForbid(policies, authEnv(entities, req)))
